@@ -71,7 +71,7 @@ class IntPT:
 
 
 def rand_intpt(rng, hs_dim, nsteps, maxbond=3, allow_rank3=True, transforms=False, lo=-1, hi=1,
-               trivial_prob=0.0, real=False):
+               trivial_prob=0.0, real=False, last_trivial=False):
     if rng.random() < trivial_prob:
         return IntPT(hs_dim, [], [], trivial=True)
     d2 = hs_dim ** 2
@@ -87,6 +87,8 @@ def rand_intpt(rng, hs_dim, nsteps, maxbond=3, allow_rank3=True, transforms=Fals
         tin = gint(rng, (d2, din), lo, hi, real)
         tout = gint(rng, (dout, d2), lo, hi, real)
     bonds = [1] + [rng.randint(1, maxbond) for _ in range(nsteps)]
+    if last_trivial:
+        bonds[-1] = 1
     mpos = []
     for k in range(nsteps):
         if rank3:
@@ -94,6 +96,8 @@ def rand_intpt(rng, hs_dim, nsteps, maxbond=3, allow_rank3=True, transforms=Fals
         else:
             mpos.append(gint(rng, (bonds[k], bonds[k + 1], din, dout), lo, hi, real))
     caps = [gint(rng, (bonds[k],), lo, hi, real) for k in range(nsteps + 1)]
+    if last_trivial:
+        caps[-1] = np.ones(1, dtype=complex)
     return IntPT(hs_dim, mpos, caps, tin, tout)
 
 
